@@ -73,8 +73,12 @@ func c07WholeLineBatches(c *Ctx) {
 					f := call.Common().StaticCallee()
 					key := fmt.Sprintf("%s: rotateFile handed to %s", shortFn(fn), calleeLabel(call))
 					switch {
-					case f != nil && PkgOf(f) == "io" && f.Name() == "Copy" && call.Common().Args[0] == ssa.Value(mi):
+					case f != nil && ((PkgOf(f) == "io" && f.Name() == "Copy" && call.Common().Args[0] == ssa.Value(mi)) || (MethodIs(f, "bytes", "Buffer", "WriteTo") && len(call.Common().Args) == 2 && call.Common().Args[1] == ssa.Value(mi))):
+						// io.Copy(dest, &buf) and buf.WriteTo(dest) are the same thing: one Write of the whole buffer
 						src := Unwrap(call.Common().Args[1])
+						if f.Name() == "WriteTo" {
+							src = Unwrap(call.Common().Args[0])
+						}
 						// the buffer may be captured by a closure (flush := func(){…}) or handed to a helper (flush(dest, &buf))
 						src = c15Root(src)
 						if fv, isFV := src.(*ssa.FreeVar); isFV {
